@@ -6,4 +6,5 @@ command -v java >/dev/null
 test -f /opt/veriftools/tla/tla2tools.jar
 /venv/bin/python -c "import construct, numpy"
 mkdir -p evidence replays
+/venv/bin/python tools/dump_layouts.py
 echo "setup ok"
